@@ -20,9 +20,16 @@ class CallMixin:
             return fr.contract.sorts[attr]
         return self.side.attr_sorts.get(attr, "any")
 
+    def select(self, arr, o):
+        """Select pushed through conditional heaps, so that quantifier triggers see the underlying terms"""
+        if z3.is_app(arr) and arr.decl().kind() == z3.Z3_OP_ITE:
+            c, a, b = arr.children()
+            return z3.If(c, self.select(a, o), self.select(b, o))
+        return z3.Select(arr, o)
+
     def read_attr(self, obj: SV, attr: str, st: St, fr: Frame) -> SV:
         arr = self.heap_get(st, attr)
-        return self.with_sort(z3.Select(arr, self.box(obj)), self.attr_sort(attr, fr))
+        return self.with_sort(self.select(arr, self.box(obj)), self.attr_sort(attr, fr))
 
     def write_attr(self, obj: SV, attr: str, val: SV, st: St, fr: Frame, node=None):
         arr = self.heap_get(st, attr)
@@ -299,6 +306,15 @@ class CallMixin:
     def elem_sort(self, container_node, fr):
         """declared element sort of a container expression (by attribute / variable name + '[]')"""
         name = None
+        # see through copies / reorderings: xs[:], list(xs), tuple(xs), sorted(xs), set(xs), reversed(xs)
+        while True:
+            if isinstance(container_node, ast.Subscript) and isinstance(container_node.slice, ast.Slice):
+                container_node = container_node.value
+            elif isinstance(container_node, ast.Call) and isinstance(container_node.func, ast.Name) and len(container_node.args) == 1 \
+                    and container_node.func.id in ("list", "tuple", "sorted", "set", "frozenset", "reversed", "iter"):
+                container_node = container_node.args[0]
+            else:
+                break
         if isinstance(container_node, ast.Attribute):
             name = container_node.attr
         elif isinstance(container_node, ast.Name):
